@@ -103,4 +103,67 @@ BitwiseOp(op, p, q) == CASE op = "and" -> PatAnd(p, q) [] op = "or" -> PatOr(p, 
 Rel(op, a, b) == CASE op = "lt" -> DLt(a, b) [] op = "le" -> DLe(a, b) [] op = "eq" -> DEq(a, b)
                    [] op = "ne" -> ~DEq(a, b) [] op = "gt" -> DLt(b, a) [] op = "ge" -> DLe(b, a)
 URaw(c, t) == ZMod2(c, t.w)
+
+(**************************** reductions (C15) ******************************)
+(* A fixed-point array is a matrix M = sequence of rows of integer codes in  *)
+(* format t (a 1-D array of length n is the 1 x n matrix, reduced along      *)
+(* axis "1").  Every result is a sequence of DYADICS (row-major), so that    *)
+(* products, whose exponent depends on the number of factors, fit too.       *)
+RECURSIVE ZSumSeq(_)
+ZSumSeq(q) == IF q = <<>> THEN Z0 ELSE ZAdd(Head(q), ZSumSeq(Tail(q)))
+RECURSIVE ZProdSeq(_)
+ZProdSeq(q) == IF q = <<>> THEN Z1 ELSE ZMul(Head(q), ZProdSeq(Tail(q)))
+RECURSIVE ZMaxSeq(_)
+ZMaxSeq(q) == IF Len(q) = 1 THEN q[1] ELSE ZMax(Head(q), ZMaxSeq(Tail(q)))
+RECURSIVE ZMinSeq(_)
+ZMinSeq(q) == IF Len(q) = 1 THEN q[1] ELSE ZMin(Head(q), ZMinSeq(Tail(q)))
+RECURSIVE FlatRows(_)
+FlatRows(M) == IF M = <<>> THEN <<>> ELSE Head(M) \o FlatRows(Tail(M))
+NRows(M) == Len(M)
+NCols(M) == Len(M[1])
+ColOf(M, j) == [i \in 1..NRows(M) |-> M[i][j]]
+TransposeM(M) == [j \in 1..NCols(M) |-> ColOf(M, j)]
+Prefix(q, i) == SubSeq(q, 1, i)
+\* insertion sort (ascending)
+RECURSIVE InsertSorted(_,_)
+InsertSorted(q, x) == IF q = <<>> THEN <<x>> ELSE IF ZLe(x, Head(q)) THEN <<x>> \o q ELSE <<Head(q)>> \o InsertSorted(Tail(q), x)
+RECURSIVE SortSeq(_)
+SortSeq(q) == IF q = <<>> THEN <<>> ELSE InsertSorted(SortSeq(Tail(q)), Head(q))
+\* lanes along which an axis-wise function works: "none" -> one lane with everything, "0" -> columns, "1" -> rows
+Lanes(M, ax) == CASE ax = "none" -> <<FlatRows(M)>> [] ax = "0" -> TransposeM(M) [] ax = "1" -> M
+DSeq(q, e) == [i \in DOMAIN q |-> [m |-> q[i], e |-> e]]
+\* reductions: one value per lane
+RedSum(M, ax, f)  == LET L == Lanes(M, ax) IN [i \in DOMAIN L |-> [m |-> ZSumSeq(L[i]), e |-> -f]]
+RedProd(M, ax, f) == LET L == Lanes(M, ax) IN [i \in DOMAIN L |-> [m |-> ZProdSeq(L[i]), e |-> -f * Len(L[i])]]
+RedMax(M, ax, f)  == LET L == Lanes(M, ax) IN [i \in DOMAIN L |-> [m |-> ZMaxSeq(L[i]), e |-> -f]]
+RedMin(M, ax, f)  == LET L == Lanes(M, ax) IN [i \in DOMAIN L |-> [m |-> ZMinSeq(L[i]), e |-> -f]]
+\* lane-wise maps returning a matrix with the lanes' orientation restored, flattened row-major
+Unlane(R, ax) == CASE ax = "none" -> R[1] [] ax = "0" -> FlatRows(TransposeM(R)) [] ax = "1" -> FlatRows(R)
+CumSumM(M, ax, f) == LET L == Lanes(M, ax)
+                         R == [i \in DOMAIN L |-> [j \in DOMAIN L[i] |-> [m |-> ZSumSeq(Prefix(L[i], j)), e |-> -f]]]
+                     IN Unlane(R, ax)
+CumProdM(M, ax, f) == LET L == Lanes(M, ax)
+                          R == [i \in DOMAIN L |-> [j \in DOMAIN L[i] |-> [m |-> ZProdSeq(Prefix(L[i], j)), e |-> -f * j]]]
+                      IN Unlane(R, ax)
+SortM(M, ax, f) == LET L == Lanes(M, ax)
+                       R == [i \in DOMAIN L |-> DSeq(SortSeq(L[i]), -f)]
+                   IN Unlane(R, ax)
+\* clip between two codes of the same format (bounds given on x's grid)
+ClipM(M, lo, hi, f) == DSeq([i \in DOMAIN FlatRows(M) |-> ZMax(lo, ZMin(hi, FlatRows(M)[i]))], -f)
+TransposeFlat(M, f) == DSeq(FlatRows(TransposeM(M)), -f)
+\* diagonal with offset k (k >= 0: above the main diagonal, k < 0: below)
+DiagIdx(M, k) == { i \in 1..NRows(M) : i + k >= 1 /\ i + k <= NCols(M) }
+DiagSeq(M, k) == LET I == DiagIdx(M, k)
+                     lo == IF k >= 0 THEN 1 ELSE 1 - k
+                 IN [n \in 1..(IF I = {} THEN 0 ELSE CHOOSE c \in 0..NRows(M) : c = (IF k >= 0 THEN MinI(NRows(M), NCols(M) - k) ELSE MinI(NRows(M) + k, NCols(M))))
+                       |-> M[lo + n - 1][lo + n - 1 + k]]
+DiagonalM(M, k, f) == DSeq(DiagSeq(M, k), -f)
+TraceM(M, k, f) == <<[m |-> ZSumSeq(DiagSeq(M, k)), e |-> -f]>>
+\* matrix product  A (r x n) . B (n x c)
+DotM(A, B, fa, fb) ==
+   LET BT == TransposeM(B)
+       cell(i, j) == ZSumSeq([k \in 1..NCols(A) |-> ZMul(A[i][k], BT[j][k])])
+   IN DSeq(FlatRows([i \in 1..NRows(A) |-> [j \in 1..NRows(BT) |-> cell(i, j)]]), -(fa + fb))
+\* documented growth: ceil(log2(n)) extra word bits for n-term sums
+CeilLog2(n) == CHOOSE k \in 0..31 : 2^k >= n /\ (k = 0 \/ 2^(k - 1) < n)
 =============================================================================
